@@ -37,6 +37,12 @@ def units(tier, seed):
                 for g in ({"kind": "horizon"}, {"kind": "evals", "n": 80}):
                     desc = dict(engines=list(eng), gens=2, Mh=5, hib=hib, seed=s, choices="GL", gsc=g, sprout={"kind": sk, "L": 2})
                     us += split_units(desc, 1 if tier == "quick" else 2, "GL", {"mode": "shipped"})
+    # an objective undefined (NaN) on half of the box: ranking the frozen population of a sleeping deme must not evaluate anything
+    for k2, eng in enumerate([("SEA", "DE"), ("DE", "SEA", "SHADE"), ("GA", "SEAX"), ("SEA", "DE", "CMAf")]):
+        for sk in ("simple", "nbc"):
+            desc = dict(engines=list(eng), gens=1, Mh=5, hib=True, seed=s + k2, choices="GL", obj="nanhalf", pop=(6, 10)[k2 % 2], sprout={"kind": sk, "L": 1 + k2 % 2},
+                        lsc=[None] + [{"kind": "metaepoch", "m": 2}] * (len(eng) - 1))
+            us += split_units(desc, 1, "GL", {"mode": "nan"})
     # several configurations built in ONE process, the 'hibernation' key omitted where it is off:
     # an option of one tree must not leak into the next
     seq = []
